@@ -222,6 +222,15 @@ fn ref_channel_step(s: &[u8], mut pos: usize, first: bool) -> ChStep {
                     i += 2;
                     continue;
                 }
+                // after the closing quote only a separator (optionally after white space) or
+                // the end may follow (488.2 string data rule, as in a program message)
+                let mut q = i + 1;
+                while q < s.len() && (s[q] == b' ' || s[q] == b'\t' || s[q] == b'\n' || s[q] == 0x0C || s[q] == b'\r') {
+                    q += 1;
+                }
+                if q < s.len() && s[q] != b',' && s[q] != b';' && s[q] != b'\n' {
+                    return ChStep { kind: 3, a: 0, b: 0, c: 0, d: 0, next: pos };
+                }
                 return ChStep { kind: 2, a, b: i, c: 0, d: 0, next: i + 1 };
             }
             if s[i] >= 0x80 {
